@@ -368,6 +368,7 @@ def run_case(spec, *, extra=None, wf=None, ctx_factory=None, start=True) -> Trac
     install_probes()
     tr = Trace(spec)
     tr.rec = programs.reset_recorder()
+    tr.rec._uid = int(spec.get("uid_base", 0))
     tr.extra.update(extra or {})
     _CUR["trace"] = tr
 
